@@ -456,9 +456,11 @@ ares_status_t ares_dns_name_write(ares_buf_t *buf, ares_llist_t **list,
 
   /* Store pointer for future jumps as long as its not an exact match for
    * a prior entry.  A compression pointer only has 14 bits for the offset, a
-   * name starting beyond that can't be the target of a jump. */
+   * name starting beyond that can't be the target of a jump.  Neither is the
+   * root ("."): it has no labels, a jump to it is longer than the root itself
+   * and it would make "a.." acceptable as "a" followed by a jump to ".". */
   if (list != NULL && (off == NULL || off->name_len != orig_name_len) &&
-      name_len > 0 && pos <= 0x3FFF) {
+      name_len > 0 && ares_array_len(labels) > 0 && pos <= 0x3FFF) {
     status = ares_nameoffset_create(list, name /* not truncated copy! */, pos);
     if (status != ARES_SUCCESS) {
       goto done; /* LCOV_EXCL_LINE: OutOfMemory */
